@@ -345,8 +345,8 @@ def check(run, replay=None):
         python_threads(run, seed + nthr, mods, nthr, 40 if run.tier == "quick" else 400)
     run.require_counter("interleaved_instance_checks", 100)
     from .. import sched_kernels
-    sched_kernels.attach(run, ["compute_gv", "compute_geometry", "compute_xlylzl"], 24 if run.tier == "quick" else 240,
-                         [[1, 0], [2, 1], [4, 1], [64, 1]], "cdiffraction")
+    sched_kernels.attach(run, ["compute_gv", "compute_geometry", "compute_xlylzl"], 8 if run.tier == "quick" else 120,
+                         [[1, 0], [2, 4], [4, 1], [4, 4], [64, 1]], "cdiffraction")
     run.require_counter("values_compared", 1000)
     run.require_counter("thread_runs", 10)
     run.require_counter("sched_determinism_comparisons", 20)
